@@ -1071,10 +1071,21 @@ func runKind(c *hx.Ctx, kind string) {
 			func(b []byte) int { return compact.MarshalString(v, b) },
 			func(b []byte) (int, string) {
 				d, n := compact.UnmarshalString(b)
-				if !compact.MarshalledStringEquals(b, v) {
-					return n, "not-equal"
+				// MarshalledStringEquals against the string itself, a proper prefix, an extension and a one-byte change
+				probes := []string{v, v + "x", v + "x", "\x01"}
+				if len(v) > 0 {
+					probes[1] = v[:len(v)-1]
+					probes[3] = string([]byte{v[0] ^ 1}) + v[1:]
 				}
-				return n, hx.Hex([]byte(d))
+				flags := ""
+				for _, q := range probes {
+					if compact.MarshalledStringEquals(b, q) {
+						flags += "1"
+					} else {
+						flags += "0"
+					}
+				}
+				return n, hx.Hex([]byte(d)) + " " + flags
 			})
 	case "nsi":
 		v := compact.NamespaceIndex{TypeAndNamespace: genTN(r), Index: int(r.Uint64Edge())}
